@@ -31,10 +31,13 @@ Structure (known-finding protocol)
    open finding classes can fire —
      fastcc exactness on FASTCC-fixed models           witness  "fastcc-fixed#<index>:<reaction id>"
      find_blocked_reactions on infinite-bound models   witness  "blocked-fixed#<index>:open_exchanges=<bool>"
-   every failing witness is reported (no cap).  Cases whose fastcc outcome depends on the iteration order of Python sets of
-   Reaction objects (identity hashes, i.e. memory addresses: fastcc builds its LP in `list(set(...))` order) are excluded from
-   the fixed list: FASTCC_ORDER_DEPENDENT, determined offline by running every case under 12 salted deterministic hash
-   functions and 6 unpatched runs (see NOTES_C19.md).
+   every failing witness is reported (no cap).
+   Determinism of the fixed fastcc sub-check: fastcc builds its LPs in `list(set(reactions))` order; Reaction objects hash by
+   identity, so CPython derives that order from memory addresses and the outcome of fastcc changes from run to run on
+   about 0.6 % of the cases (5 of 800 over 26 runs, see NOTES_C19.md).  Python leaves the order unspecified, so every order
+   is one the real code may take; the fixed sub-check pins one of them by giving cobra.Reaction a deterministic __hash__
+   (crc32 of the id) in the check's own process for the duration of the fastcc call (`_pinned_set_order`).  Nothing else is
+   patched, /repo is untouched, and the seed-dependent part runs unpatched.
 Domain: every bound pair contains zero (the statement's quantifier); dead ends, blocked branches, isolated cycles
 (feasible and orientation-blocked), duplicates, antiparallel pairs, sinks, reversible / irreversible mixes, (0,0) bounds,
 small capacities (|bound| = 1), a minority of models with infinite bounds.
@@ -52,8 +55,13 @@ KNOWN_KEYS = set()
 INF = float("inf")
 FIXED_SEED_FASTCC = 19001
 FIXED_SEED_BLOCKED = 19002
-# indices of FASTCC-fixed cases whose outcome depends on set iteration order (see module docstring); never run
-FASTCC_ORDER_DEPENDENT = frozenset()
+
+
+def _pinned_set_order():
+    """context manager: sets of Reaction objects iterate in an order that depends on the ids only (see module docstring)"""
+    import zlib
+    import cobra
+    return U.patched(cobra.Reaction, "__hash__", lambda self: zlib.crc32(self.id.encode()))
 
 
 def _ids(xs):
@@ -252,7 +260,8 @@ def _fixed_task(task):
     res = _new_res()
     if kind == "fastcc":
         try:
-            fails, info = check_fastcc(U.rebuild(desc), None, "exact")
+            with _pinned_set_order():
+                fails, info = check_fastcc(U.rebuild(desc), None, "exact")
         except Exception as e:  # noqa
             fails, info = [("driver-error", f"check raised {e!r}", "error")], {}
         res["evals"] += 1
@@ -260,7 +269,7 @@ def _fixed_task(task):
         res["sigs"][("fastcc-fixed", i)] = bool(info.get("nontrivial")) and not info.get("raised")
         for k, text, detail in fails:
             w = f"fastcc-fixed#{i:03d}:{detail}"
-            res["fails"].append((k, text, {"model": desc, "what": "fastcc", "key": k, "witness": w, "detail": detail}, 0, w, True))
+            res["fails"].append((k, text, {"model": desc, "what": "fastcc", "key": k, "witness": w, "detail": detail, "pinned": True}, 0, w, True))
     else:
         cache = {}
         for oe in (False, True):
@@ -341,7 +350,7 @@ def run(tier, seed):
     t0 = time.time()
     U.quiet()
     cfg = TIERS[tier]
-    ftasks = [("fastcc", i, d) for i, d in enumerate(fixed_fastcc_cases(cfg["fixed_fastcc"])) if i not in FASTCC_ORDER_DEPENDENT]
+    ftasks = [("fastcc", i, d) for i, d in enumerate(fixed_fastcc_cases(cfg["fixed_fastcc"]))]
     ftasks += [("blocked", i, d) for i, d in enumerate(fixed_blocked_cases(cfg["fixed_blocked"]))]
     tasks = [("zero", seed, i, cfg["zero_n"], tier) for i in range(cfg["zero_chunks"])]
     tasks += [("inf", seed, i, cfg["inf_n"], tier) for i in range(cfg["inf_chunks"])]
@@ -368,8 +377,7 @@ def run(tier, seed):
                 "fixed part: seed-independent case lists (witness ids), seed-dependent part: models drawn from the seed. "
                 "distinct = distinct (model structure incl. exchange set, call configuration) resp. fixed case; non-trivial = the call "
                 "returned and the requested reactions contain both blocked and non-blocked ones",
-        "bounds": {"tier": tier, "seed": seed, "fixed_fastcc_cases": cfg["fixed_fastcc"] - len([i for i in FASTCC_ORDER_DEPENDENT if i < cfg["fixed_fastcc"]]),
-                   "fixed_fastcc_cases_excluded_order_dependent": sorted(i for i in FASTCC_ORDER_DEPENDENT if i < cfg["fixed_fastcc"]),
+        "bounds": {"tier": tier, "seed": seed, "fixed_fastcc_cases": cfg["fixed_fastcc"], "fixed_fastcc_set_order": "pinned (Reaction.__hash__ = crc32(id))",
                    "fixed_blocked_cases_infinite_bounds": cfg["fixed_blocked"], "fixed_part_calls": fixed_evals,
                    "seed_models": cfg["zero_chunks"] * cfg["zero_n"] + cfg["inf_chunks"] * cfg["inf_n"],
                    "seed_models_skipped_unbounded_ray": tot["skipped_ray"],
@@ -393,7 +401,9 @@ def replay(payload_replay):
     U.quiet()
     m = U.rebuild(payload_replay["model"])
     if payload_replay["what"] == "fastcc":
-        fails, _ = check_fastcc(m, None, payload_replay.get("mode", "exact"))
+        import contextlib
+        with (_pinned_set_order() if payload_replay.get("pinned") else contextlib.nullcontext()):
+            fails, _ = check_fastcc(m, None, payload_replay.get("mode", "exact"))
     else:
         fails, _ = check_blocked(m, payload_replay["cfg"])
     key, detail = payload_replay.get("key"), payload_replay.get("detail")
